@@ -449,7 +449,7 @@ func (c *Client) opendir(ctx context.Context, path string) (string, error) {
 		handle, _ := unmarshalString(data)
 		return handle, nil
 	case sshFxpStatus:
-		return "", normaliseError(unmarshalStatus(id, data))
+		return "", errorFromStatus(id, data)
 	default:
 		return "", unimplementedPacketErr(typ)
 	}
@@ -489,7 +489,7 @@ func (c *Client) Lstat(p string) (os.FileInfo, error) {
 		}
 		return fileInfoFromStat(attr, path.Base(p)), nil
 	case sshFxpStatus:
-		return nil, normaliseError(unmarshalStatus(id, data))
+		return nil, errorFromStatus(id, data)
 	default:
 		return nil, unimplementedPacketErr(typ)
 	}
@@ -518,7 +518,7 @@ func (c *Client) ReadLink(p string) (string, error) {
 		filename, _ := unmarshalString(data) // ignore dummy attributes
 		return filename, nil
 	case sshFxpStatus:
-		return "", normaliseError(unmarshalStatus(id, data))
+		return "", errorFromStatus(id, data)
 	default:
 		return "", unimplementedPacketErr(typ)
 	}
@@ -685,7 +685,7 @@ func (c *Client) open(path string, pflags uint32) (*File, error) {
 		handle, _ := unmarshalString(data)
 		return &File{c: c, path: path, handle: handle}, nil
 	case sshFxpStatus:
-		return nil, normaliseError(unmarshalStatus(id, data))
+		return nil, errorFromStatus(id, data)
 	default:
 		return nil, unimplementedPacketErr(typ)
 	}
@@ -729,7 +729,7 @@ func (c *Client) stat(path string) (*FileStat, error) {
 		attr, _, err := unmarshalAttrs(data)
 		return attr, err
 	case sshFxpStatus:
-		return nil, normaliseError(unmarshalStatus(id, data))
+		return nil, errorFromStatus(id, data)
 	default:
 		return nil, unimplementedPacketErr(typ)
 	}
@@ -753,7 +753,7 @@ func (c *Client) fstat(handle string) (*FileStat, error) {
 		attr, _, err := unmarshalAttrs(data)
 		return attr, err
 	case sshFxpStatus:
-		return nil, normaliseError(unmarshalStatus(id, data))
+		return nil, errorFromStatus(id, data)
 	default:
 		return nil, unimplementedPacketErr(typ)
 	}
@@ -787,7 +787,7 @@ func (c *Client) StatVFS(path string) (*StatVFS, error) {
 
 	// the resquest failed
 	case sshFxpStatus:
-		return nil, normaliseError(unmarshalStatus(id, data))
+		return nil, errorFromStatus(id, data)
 
 	default:
 		return nil, unimplementedPacketErr(typ)
@@ -954,7 +954,7 @@ func (c *Client) RealPath(path string) (string, error) {
 		filename, _ := unmarshalString(data) // ignore attributes
 		return filename, nil
 	case sshFxpStatus:
-		return "", normaliseError(unmarshalStatus(id, data))
+		return "", errorFromStatus(id, data)
 	default:
 		return "", unimplementedPacketErr(typ)
 	}
@@ -1145,7 +1145,7 @@ func (f *File) readChunkAt(ch chan result, b []byte, off int64) (n int, err erro
 
 		switch typ {
 		case sshFxpStatus:
-			return n, normaliseError(unmarshalStatus(id, data))
+			return n, errorFromStatus(id, data)
 
 		case sshFxpData:
 			sid, data := unmarshalUint32(data)
@@ -1291,7 +1291,7 @@ func (f *File) readAt(b []byte, off int64) (int, error) {
 				if err == nil {
 					switch s.typ {
 					case sshFxpStatus:
-						err = normaliseError(unmarshalStatus(packet.id, s.data))
+						err = errorFromStatus(packet.id, s.data)
 
 					case sshFxpData:
 						sid, data := unmarshalUint32(s.data)
@@ -1520,7 +1520,7 @@ func (f *File) WriteTo(w io.Writer) (written int64, err error) {
 				if err == nil {
 					switch s.typ {
 					case sshFxpStatus:
-						err = normaliseError(unmarshalStatus(readWork.id, s.data))
+						err = errorFromStatus(readWork.id, s.data)
 
 					case sshFxpData:
 						sid, data := unmarshalUint32(s.data)
@@ -2257,6 +2257,21 @@ func normaliseError(err error) error {
 	default:
 		return err
 	}
+}
+
+// errUnexpectedStatusOK is returned when a server answers SSH_FX_OK to a request
+// whose success has to be reported with another packet type.
+var errUnexpectedStatusOK = errors.New("sftp: unexpected SSH_FX_OK status in reply to a request that returns data")
+
+// errorFromStatus converts the SSH_FXP_STATUS reply to a request that reports success
+// with another packet type (HANDLE, DATA, NAME, ATTRS or EXTENDED_REPLY) into an error.
+// Such a status can only mean failure: were SSH_FX_OK turned into a nil error,
+// the caller would receive a nil result together with a nil error.
+func errorFromStatus(id uint32, data []byte) error {
+	if err := normaliseError(unmarshalStatus(id, data)); err != nil {
+		return err
+	}
+	return errUnexpectedStatusOK
 }
 
 // flags converts the flags passed to OpenFile into ssh flags.
